@@ -14,11 +14,21 @@ import os
 import shutil
 import vlib
 
+import time
+
+
+def timed(ctx, name, f, *a, **kw):
+    t0 = time.time()
+    r = f(*a, **kw)
+    ctx.notes.append("stage %s %.0fs" % (name, time.time() - t0))
+    return r
+
+
 PROPS = ["C38"]
 FAMILY = "Delegation"
 
 KNOWN_SIG = "C38/computeAndUpdateRewards/no-active-fund/stale-checkpoint-overpays"
-INVS = "Inv_C38_active Inv_C38_unstaked Inv_C38_refs Inv_C38_withdrawn M_rewards M_rewards_owed"
+INVS = "Inv_C38_active Inv_C38_unstaked Inv_C38_refs Inv_C38_withdrawn M_rewards M_rewards_owed_obs"
 MC_INVS = "TypeOK Inv_C38_active Inv_C38_unstaked Inv_C38_withdrawn Inv_C38_rewards Inv_C38_rewards_owed"
 GEN_INVS = "Inv_C38_active Inv_C38_unstaked Inv_C38_withdrawn M_rewards M_rewards_owed"
 
@@ -134,9 +144,23 @@ def validate(ctx, sd, trace_path, n_events, what, timeout=900):
     return "broken"
 
 
+ACTIONS = ["Delegate", "ReDelegate", "UnDelegate", "Withdraw", "Claim", "UpdateRewards", "ChangeFee", "ModifyCap", "NextEpoch"]
+
+
+def vacuity_guard(ctx):
+    acc = ctx.coverage.get("replayed_ok_calls_per_action", {})
+    missing = [a for a in ACTIONS if acc.get(a, 0) == 0]
+    if missing:
+        ctx.broken.append("vacuity guard: specification actions that never succeeded on the real contract in any replayed "
+                          "behaviour: %s" % ", ".join(missing))
+
+
 def replay_and_check(ctx, sd, exe, beh, name, what, distinct=False):
     mm = ctx.path(name)
     h = ctx.vh(exe, ["replay", beh, mm], timeout=1800)
+    acc = ctx.coverage.setdefault("replayed_ok_calls_per_action", {})
+    for a, n in (h.stats.get("ok_actions") or {}).items():
+        acc[a] = acc.get(a, 0) + int(n)
     kw = dict(traces_validated_against_impl=int(h.stats.get("behaviours", 0)), evaluations=int(h.stats.get("steps", 0)),
               known_deviation_reproduced_in_replay=int(h.stats.get("known_deviation_reproduced", 0)),
               replay_mismatching=int(h.stats.get("mismatching", 0)))
@@ -167,15 +191,16 @@ def run(ctx):
         "driver ends every trace with a claim by every delegator so that the plain clause is observed as well",
         "trusted: TLC, the storage projection in harness/cmd/vh-delegation (proj), harness/families/sysvm (commit rule)")
 
+    ctx.notes.append("t+%.0fs before r1" % (time.time() - ctx.t0))
     if want("r1"):
         inv_rest = "VIEW cvars\nCONSTRAINT LevelBound\nINVARIANTS " + MC_INVS
         if q:
-            mc_cfg(sd, "r1a.cfg", confs="ConfsSmall", depth=6, rest=inv_rest)
+            mc_cfg(sd, "r1a.cfg", confs="ConfsTiny", depth=6, log="LogNone", rest=inv_rest)
         else:
-            mc_cfg(sd, "r1a.cfg", confs="ConfsMedium", fees="0, 2500", caps="0, 9", depth=7, rest=inv_rest)
+            mc_cfg(sd, "r1a.cfg", confs="ConfsMedium", fees="0, 2500", caps="0, 9", depth=7, log="LogNone", rest=inv_rest)
         ra = ctx.tlc(sd, "MC_Delegation", "r1a.cfg", timeout=3000, coverage=not q)
         ctx.notes.append("R1a %.0fs %d states" % (ra.wall, ra.distinct))
-        mc_cfg(sd, "r1b.cfg", defects="StaleCheckpointDefect", depth=7, rest=inv_rest)
+        mc_cfg(sd, "r1b.cfg", defects="StaleCheckpointDefect", depth=7, log="LogNone", rest=inv_rest)
         rb = ctx.tlc(sd, "MC_Delegation", "r1b.cfg", timeout=900, allow=("invariant",))
         if rb.error not in ("invariant:Inv_C38_rewards_owed", "invariant:Inv_C38_rewards"):
             ctx.broken.append("R1(b): the specification with the named deviation should violate the rewards clause, got %s" % rb.error)
@@ -184,6 +209,7 @@ def run(ctx):
 
     exe = ctx.go_build("vh-delegation")
 
+    ctx.notes.append("t+%.0fs before gen" % (time.time() - ctx.t0))
     if want("gen"):
         gen_rest = "VIEW cvars\nACTION_CONSTRAINT EmitEdge\nINVARIANTS " + GEN_INVS
         if q:
@@ -198,16 +224,18 @@ def run(ctx):
             ctx.broken.append("behaviour export produced nothing")
         replay_and_check(ctx, sd, exe, beh, "mismatch1.ndjson", "replayed TLC behaviour (transition cover)", distinct=True)
 
+    ctx.notes.append("t+%.0fs before sim" % (time.time() - ctx.t0))
     if want("sim"):
         sim_rest = "ACTION_CONSTRAINT EmitFull\nINVARIANTS " + GEN_INVS
         mc_cfg(sd, "sim.cfg", spec="GenSpec", defects="StaleCheckpointDefect", log="LogAppend", depth=40, confs="ConfsSim",
                amounts="1, 2, 3, 4, 5, 6, 9, 14", rewards="0, 7, 10, 40", fees="0, 1000, 2500, 10000", caps="0, 14, 30",
                maxepoch=8, maxtotal=60, maxrew=12, rest=sim_rest)
         beh2 = ctx.path("sim.ndjson")
-        g2 = ctx.tlc(sd, "MC_Delegation", "sim.cfg", simulate=40 if q else 800, depth=40, timeout=1800, behaviours_out=beh2, count=False)
+        g2 = ctx.tlc(sd, "MC_Delegation", "sim.cfg", simulate=30 if q else 600, depth=40, timeout=1800, behaviours_out=beh2, count=False)
         ctx.notes.append("sim %.0fs %d behaviours" % (g2.wall, g2.behaviours))
         replay_and_check(ctx, sd, exe, beh2, "mismatch2.ndjson", "replayed TLC behaviour (simulation)")
 
+    ctx.notes.append("t+%.0fs before r3" % (time.time() - ctx.t0))
     if want("r3"):
         tr = os.path.join(sd, "trace.ndjson")
         nt, ln = (100, 60) if q else (1500, 80)
@@ -250,6 +278,9 @@ def run(ctx):
                 if m is not drop_event:
                     vlib.selftest_rejects(ctx, sd, "Trace_Delegation", "t_obs.cfg", tr, m)
 
+    if want("gen") and want("sim"):
+        vacuity_guard(ctx)
+    ctx.notes.append("t+%.0fs end" % (time.time() - ctx.t0))
     ctx.cov(rule="R2: every transition of the specification's abstract state graph up to the depth bound (3 delegators, amounts "
                  "around minDelegation = 3, rewards, epochs) + simulated 40-step walks over the configuration space (min amounts, "
                  "unbond periods 0-2, caps, fees, flags) are executed on the real delegation contract; after every call "
